@@ -460,6 +460,193 @@ def clause_lazy_build(facts, rep):
               hfns['EndObject'].loc, bad or '', facts.config)
 
 
+def clause_merge_model(facts, rep, tier):
+    """UpdateNodeLazy against the recursive object merge, by bounded exploration: its CFG is interpreted (recursively)
+    on the node / block / multimap model of sv/dom_model.py; a raw node is a JSON text, and the lazy parse of an object
+    text is replaced by its contract (an object whose members are the keys with raw values, in order - the contract
+    E6.lazy-build and the scanner rules decide); CreateMap / FindMember / AddMember run the interpreted container code.
+    For every ordered pair (target, source) of a universe of JSON values - scalars, arrays, objects of <= 3 members,
+    nested to depth 3, disjoint / overlapping / equal key sets - the target afterwards equals
+
+        merge(t, s) = t and s objects, t non-empty:  t with every member of s merged into the member of the same key, or appended
+                      otherwise:                      s
+    """
+    import json as _json, itertools
+    from .. import dom_model as dm
+    from ..dom_model import V, Ptr, Block, Machine
+    from ..minterp import Interp, Unsupported, UndefinedBehaviour
+    tags = {}
+    for en in facts.enums:
+        if en.get('qn', '').endswith('TypeFlag'):
+            for c in en.get('values', []):
+                tags[c['name']] = int(c['v'])
+    fu = [f for f in facts.functions if f.short == 'UpdateNodeLazy' and len(f.params) == 3]
+    rep.require(len(fu) >= 1 and 'kObject' in tags, 'C20: UpdateNodeLazy not found')
+    if not fu:
+        return
+    f = fu[0]
+    rep.fn(f)
+    pool = 'MemoryPoolAllocator' in f.name
+    nfns = {}
+    for g in facts.functions:
+        if (g.cls_qn or '').startswith('sonic_json::DNode'):
+            mine = (g.name.startswith('sonic_json::DNode<>::')) if pool else (g.name.startswith('sonic_json::DNode<sonic_json::SimpleAllocator>') or g.name.startswith('sonic_json::DNode<SAlloc>'))
+            if not mine:
+                continue
+            if g.short == 'findMemberImpl' and g.params and 'StringView' not in g.params[0]['t'] and 'basic_string_view' not in g.params[0]['t']:
+                continue
+            nfns.setdefault(g.short, g)
+    rep.require(all(n in nfns for n in ('addMemberImpl', 'findMemberImpl', 'CreateMap', 'destroy')), 'C20: container functions of the matching DNode instantiation not found')
+
+    def dumps(x):
+        return _json.dumps(x, separators=(',', ':'))
+
+    def merge(t, s_):
+        if isinstance(t, dict) and isinstance(s_, dict) and t:
+            out = dict(t)
+            for k, v in s_.items():
+                out[k] = merge(out[k], v) if k in out else v
+            return out
+        return s_
+
+    class PR:
+        def __init__(self, err=0):
+            self.err = err
+
+    class Run:
+        def __init__(self):
+            self.M = Machine(facts, nfns, tags, need_free=not pool)
+            self.depth = 0
+
+        def raw(self, x):
+            v = V('raw', dumps(x))
+            v.length = len(v.val)
+            v.addr = dm.new_addr()
+            return v
+
+        def lazy_parse(self, node, text):
+            x = _json.loads(text)
+            if not isinstance(x, dict):
+                raise Unsupported('lazy parse of a non-object')
+            node.kind, node.val, node.own, node.block, node.length = 'obj', None, None, None, 0
+            if x:
+                b = Block(self.M.ledger, len(x), 2)
+                for j, (k, v) in enumerate(x.items()):
+                    kn = b.slots[2 * j]
+                    kn.kind, kn.val, kn.length, kn.addr = 'str', k, len(k), dm.new_addr()
+                    b.slots[2 * j + 1].copy_bits(self.raw(v))
+                node.block, node.length = b, len(x)
+
+        def value(self, v):
+            if v.kind == 'raw':
+                return _json.loads(v.val)
+            if v.kind == 'obj':
+                out = {}
+                for j in range(v.length):
+                    k = v.block.slots[2 * j]
+                    if k.kind != 'str':
+                        raise UndefinedBehaviour('a member name is a %s node' % k.kind)
+                    if k.val in out:
+                        return ('duplicate key', k.val)
+                    out[k.val] = self.value(v.block.slots[2 * j + 1])
+                return out
+            raise UndefinedBehaviour('a %s node in the result of a lazy merge' % v.kind)
+
+        def update(self, target, source):
+            self.depth += 1
+            if self.depth > 10:
+                raise Unsupported('merge recursion deeper than 10')
+            it = None
+            R = self
+
+            def hook(e, a, env, members):
+                nm = e.get('cname') or ''
+                o = None
+                if e.get('obj') is not None:
+                    try:
+                        o = it.ev(e['obj'], env, members)
+                    except Unsupported:
+                        o = None
+                if e.get('opcall') and o is None and a and isinstance(a[0], PR) and nm == 'operator=':
+                    a[0].err = a[1].err if isinstance(a[1], PR) else 0
+                    return a[0]
+                if isinstance(o, PR):
+                    if nm == 'Error':
+                        return o.err
+                if e.get('k') == 'ctor' and 'ParseResult' in (e.get('cname') or e.get('t') or ''):
+                    return PR(0) if not a else (a[0] if isinstance(a[0], PR) else PR(0))
+                if nm == 'ParseLazy' and len(a) == 3:
+                    node = a[0].slot() if isinstance(a[0], Ptr) else a[0]
+                    R.lazy_parse(node, dm.skey(a[1]))
+                    return PR(0)
+                if nm == 'UpdateNodeLazy' and len(a) == 3:
+                    t_ = a[0].slot() if isinstance(a[0], Ptr) else a[0]
+                    s__ = a[1].slot() if isinstance(a[1], Ptr) else a[1]
+                    return R.update(t_, s__)
+                if isinstance(o, (V, Ptr)):
+                    n = o.slot() if isinstance(o, Ptr) else o
+                    if nm == 'IsRaw':
+                        return int(n.kind == 'raw')
+                    if nm == 'GetRaw':
+                        if n.kind != 'raw':
+                            raise UndefinedBehaviour('GetRaw() of a %s node' % n.kind)
+                        return ('sv', n.val, n.addr or dm.new_addr())
+                    if nm == 'Empty':
+                        return int(n.length == 0) if n.kind in ('obj', 'arr') else 1
+                    if nm == 'FindMember':
+                        return R.M.call('findMemberImpl', n, a[-1])
+                    if nm == 'AddMember':
+                        val = a[1].slot() if isinstance(a[1], Ptr) else a[1]
+                        return R.M.call('addMemberImpl', n, a[0], val, 'ALLOC', a[3] if len(a) > 3 else 1)
+                    if nm == 'CreateMap':
+                        return R.M.call('CreateMap', n, 'ALLOC')
+                if isinstance(o, dm.CharPtr) or (e.get('k') == 'un'):
+                    pass
+                return R.M.generic_hook(e, a, env, members, it)
+            it = Interp(f, facts, call_hook=hook, max_steps=200000)
+            try:
+                r = it.run({f.params[0]['id']: target, f.params[1]['id']: source, f.params[2]['id']: 'ALLOC'}, {})[0]
+            finally:
+                self.depth -= 1
+            return r
+    # the first character of a raw text is read through *GetRaw().data()
+    if not hasattr(dm.CharPtr, 'deref'):
+        dm.CharPtr.deref = lambda self_: ord(self_.text[0]) if self_.text else 0
+    scal = [1, 'x', None, True, [1, 2], []]
+    objs1 = [{}, {'a': 1}, {'b': 'x'}, {'a': 1, 'b': 2}, {'b': 3, 'a': 4}, {'a': 1, 'b': 2, 'c': 3}, {'c': [1], 'd': None}]
+    nested = [{'a': {'x': 1}}, {'a': {'x': 1, 'y': {'p': 1}}, 'b': 2}, {'a': {'y': {'q': 2}}, 'c': {}}, {'a': {}, 'b': {'k': 1}}, {'a': [1], 'b': {'k': {'z': 0}}},
+              {'b': {'k': {'z': 1, 'w': 2}}, 'a': {'x': {'deep': 1}}}, {'a': {'x': 1, 'y': {'p': 1}}, 'b': {'k': 1}, 'c': {'m': {'n': {}}}}]
+    univ = scal + objs1 + nested
+    if tier == 'thorough':
+        univ += [{'k%d' % i: {'v': i} for i in range(9)}, {'k%d' % i: {'w': i} for i in range(4, 12)}]
+    bad = None
+    n = 0
+    try:
+        for t in univ:
+            for s_ in univ:
+                R = Run()
+                tn, sn = R.raw(t), R.raw(s_)
+                try:
+                    err = R.update(tn, sn)
+                    n += 1
+                    got = R.value(tn)
+                    want = merge(t, s_)
+                    if err:
+                        bad = 'target %s, source %s: error %s' % (dumps(t), dumps(s_), err)
+                    elif got != want or (isinstance(got, dict) and list(got) != list(want)):
+                        bad = 'target %s, source %s: result %s, the merge is %s' % (dumps(t), dumps(s_), dumps(got) if not isinstance(got, tuple) else got, dumps(want))
+                except UndefinedBehaviour as ux:
+                    bad = 'target %s, source %s: undefined behaviour: %s' % (dumps(t), dumps(s_), ux)
+                if bad:
+                    break
+            if bad:
+                break
+    except Unsupported as ex:
+        raise AnalysisBroken('C20: UpdateNodeLazy cannot be interpreted on the DOM model: %s' % ex)
+    rep.extra['merge_pairs_explored'] = n
+    rep.check(bad is None, 'E6.lazy-merge', f.qn, 'target after UpdateNodeLazy == merge(target, source) on %d ordered pairs' % n, f.loc, bad or '', facts.config)
+
+
 def run(rep, tier):
     configs = [('K1', ('::avx2::',))] if tier == 'quick' else [('K1', ('::avx2::',)), ('K3', ('::sse::',))]
     for cfg, ns in configs:
@@ -494,6 +681,10 @@ def run(rep, tier):
         c14.clause_e(facts, rep, ns, min_returns=(6 if cfg == 'K1' else 1))
     try:
         clause_lazy_build(get_facts('K1'), rep)
+    except AnalysisBroken as ex:
+        rep.broken.append(str(ex))
+    try:
+        clause_merge_model(get_facts('K1'), rep, tier)
     except AnalysisBroken as ex:
         rep.broken.append(str(ex))
     rep.min_instances('E3.decode-buffer', 4)
